@@ -216,8 +216,8 @@ func TestVerifRace_C12_concurrent(t *testing.T) {
 // (panic in the caller) and closerace/race:…Close|…Refresh; it is silent with
 // notes/candidate-fixes/17-rtrefresh-close-race.diff overlaid. "Every refresh request receives an answer, also during shutdown" presupposes
 // that issuing the request while the node shuts down is safe: no panic (sync.WaitGroup misuse) and
-// no data race. Answers are awaited without a deadline (a missing answer would end as the
-// wall-clock watchdog's "inconclusive"; the virtual-time units judge that clause).
+// no data race. Answers are awaited without a deadline; a missing answer is convicted logically (Close returned and no
+// goroutine of the instance is left that could send it).
 func TestVerifRace_C12_closerace(t *testing.T) {
 	vh.Run(t, vh.Spec{Prop: "C12", Unit: "closerace", Quick: 40, Thorough: 1500, CostMs: 60, WallS: 120,
 		Rule:    "real-time: per case 12 fresh DHTs over the simulated host (0-6 identified honest peers, no latency); 2-5 goroutines call RefreshRoutingTable/ForceRefresh 1-4 times each, started together with Close() after a PRNG number of scheduler yields; every channel obtained is read to completion; a panic in a caller is caught (clause), a panic elsewhere crashes the child (driver: crash), the race detector watches; non-trivial = in at least one of the 12 DHTs some requests were issued before Close() began and some after it had begun; distinct by (peers, goroutines, yields)",
@@ -290,7 +290,31 @@ func TestVerifRace_C12_closerace(t *testing.T) {
 				wg.Wait()
 				c.Clause("refresh-call-survives-close")
 				for _, ch := range chs {
-					v, ok := <-ch // no deadline: see the unit comment
+					// No deadline. A missing answer is convicted LOGICALLY: Close has returned and, over 200 consecutive
+					// polls, no goroutine started by the instance is alive any more - nobody is left who could answer.
+					var v error
+					var ok, got bool
+					for quiet := 0; !got; {
+						select {
+						case v, ok = <-ch:
+							got = true
+							continue
+						default:
+						}
+						if len(vh.Census()) == 0 {
+							quiet++
+						} else {
+							quiet = 0
+						}
+						if quiet >= 200 {
+							break
+						}
+						time.Sleep(time.Millisecond)
+					}
+					if !got {
+						c.Check(false, "refresh-answered-shutdown", "refresh request issued around Close never received an answer: Close has returned and no goroutine of the instance is left that could send one")
+						continue
+					}
 					c.Check(ok, "refresh-answered-shutdown", "refresh channel closed without a value")
 					if v != nil {
 						errAns++
